@@ -15,7 +15,7 @@ OPTSETS_THOROUGH = OPTSETS_QUICK + [
     ['-O3', '--collapsed-range-length', '1', '-fzero-len-input-support', '-fuse-packed-enums']]
 
 
-def sweeps_for(chk, progs, rng, nctx_small, nctx_big, root, use_san=False):
+def sweeps_for(chk, progs, rng, nctx_small, nctx_big, root, use_san=False, states_of=None, bytes_of=None):
     cases = []
     nsweeps = 0
     dropped_total = 0
@@ -26,7 +26,7 @@ def sweeps_for(chk, progs, rng, nctx_small, nctx_big, root, use_san=False):
         nst = len(p.m['states'])
         k = nctx_small if nst <= 60 else nctx_big
         ctxs = steps.make_contexts(p.m, rng, k)
-        script, plan = steps.sweep_script(p.m, ctxs)
+        script, plan = steps.sweep_script(p.m, ctxs, states_of(p) if states_of else None, bytes_of(p) if bytes_of else None)
         evs, rc, err = cbuild.run_driver(binary, script, timeout=120)
         sw, dropped, n = steps.conv_sweeps(evs, plan, p.m)
         dropped_total += dropped
